@@ -35,6 +35,19 @@ CONTRACT = {   # pairs guaranteed by a function's contract (confirmed by reading
     "process_node": {frozenset(("parser", "node"))}, "process_match": {frozenset(("parser", "nt"))},
     "resolve_one_step": {frozenset(("self", "current_crossrefs"))},
 }
+def eval_get_location(root):
+    """(result of get_location on a sample object, log of pos_to_linecol calls) by evaluation"""
+    from sa import pyeval
+    log = []
+    def p2lc(tag): return pyeval.PyFn(lambda pos: (log.append((tag, pos)), [100 + pos // 4, (pos * 7) % 13 + 1])[1])
+    model = {".kind": "model", "._tx_parser": {".pos_to_linecol": p2lc("model-parser")}, "._tx_filename": "model.file", "._tx_position": 0, "._tx_position_end": 100}
+    mid = {".kind": "obj", ".parent": model, "._tx_position": 3, "._tx_position_end": 40, "._tx_parser": {".pos_to_linecol": p2lc("foreign-parser")}, "._tx_filename": "other.file"}
+    obj = {".kind": "obj", ".parent": mid, "._tx_position": 7, "._tx_position_end": 19}
+    t = load(root, "textx/model.py"); gl = find(t, "get_location")
+    env = {"__functions__": {k: v for k, v in helper_functions(root, "textx/model.py", "get_location").items()}, gl.args.args[0].arg: obj}
+    try: return pyeval.run_block(gl.body, env), log
+    except pyeval.Raised as r_: return ("raises", r_.cls), log
+    except pyeval.Unsupported as u_: raise AnalysisError("get_location: outside the evaluated subset: %s" % u_)
 def r_origin(root):
     out = []; inst = 0; obligations = []
     for rel in ("textx/model.py", "textx/scoping/providers.py"):
@@ -77,16 +90,16 @@ def r_origin(root):
                 ok = flat(a0) in cparams and flat(a2) in cparams       # forwarded unchanged: the obligation moves to the caller (the resolver pairs them)
                 if not ok:
                     out.append(Finding("C28", "C28.a", P, qualname(c), ast.unparse(c), "provider that locates errors with the parser of its first argument is called with %r, which does not own the reference %r" % (flat(a0), flat(a2)), witness="duplicate names in an imported file"))
-    # C06.a get_location
-    gl = find(load(root, "textx/model.py"), "get_location"); inst += 1
-    ret = next(s for s in gl.body if isinstance(s, ast.Return)).value
-    d = {k.value: v for k, v in zip(ret.keys, ret.values)}
-    if not (root_of(d["filename"], gl) == "model_obj" and "nchar" in d and set(d) == {"line", "col", "nchar", "filename"}):
-        out.append(Finding("C06", "C06.a", "textx/model.py", "get_location", ast.unparse(ret), "location keys / owner changed"))
-    from sa import sem as _sem
-    figl = _sem.info(gl); pm = gl.args.args[0].arg
-    nval = figl.expand(d["nchar"], at=ret) if "nchar" in d else None
-    if nval is None or ast.unparse(nval).replace(" ", "") != "%s._tx_position_end-%s._tx_position" % (pm, pm): out.append(Finding("C06", "C06.a", "textx/model.py", "get_location", "nchar = " + (ast.unparse(nval) if nval is not None else "?"), "nchar is not end - start of the object's span"))
+    # C06.a get_location, by evaluation (sa/pyeval.py) over a sample object two levels below its model
+    loc, calls_ = eval_get_location(root)
+    inst += 1
+    okl = isinstance(loc, dict) and set(loc) == {"line", "col", "nchar", "filename"} and loc["filename"] == "model.file" and loc["line"] == 101 and loc["col"] == 11 and ("model-parser", 7) in calls_ and all(tag_ == "model-parser" for tag_, _p in calls_)
+    ob("C06", "C06.a", "textx/model.py", "get_location", "location of a sample object: keys, owner model's file and parser, start offset", okl)
+    if not okl: out.append(Finding("C06", "C06.a", "textx/model.py", "get_location", "get_location(<object at 7..19 inside model.file>)", "the location of a sample object is %s; documented: line/col of its start offset converted by the parser of the model that contains it, and that model's file name" % (loc,)))
+    inst += 1
+    okn = isinstance(loc, dict) and loc.get("nchar") == 12
+    ob("C06", "C06.a", "textx/model.py", "get_location", "nchar = end - start", okn)
+    if not okn: out.append(Finding("C06", "C06.a", "textx/model.py", "get_location", "nchar = %r" % (loc.get("nchar") if isinstance(loc, dict) else loc), "nchar is not end - start of the object's span (sample object at 7..19)"))
     return inst, out
 ALL = [r_origin]
 if __name__ == "__main__":
